@@ -37,12 +37,17 @@ var (
 	cpuprof  = flag.String("cpuprofile", "", "write a CPU profile of this worker")
 	resume   = flag.Bool("resume", false, "continue from the checkpoint of an earlier attempt (internal)")
 	racepass = flag.Bool("racepass", false, "run the free-running bodies of C17 (race binary)")
+	c17solo  = flag.Int("c17solo", -1, "print the solo observation of C17 instance N (internal)")
 )
 
 func main() {
 	flag.Parse()
 	if *racepass {
 		checks.C17RacePass()
+		return
+	}
+	if *c17solo >= 0 {
+		checks.C17Solo(*c17solo)
 		return
 	}
 	c := checks.Registry[*prop]
